@@ -380,10 +380,11 @@ def run_property(pid, prop, tier, seed, only=None, jobs=None, replay_only=None):
                 continue
             # replay
             log("[%s] %s: failed check(s) %s -> extracting counterexample" % (pid, name, descs[:3]))
-            tests = concrete_playback(name, flags, hmeta.get("timeout", 600), hmeta.get("mem_gb", 14), logdir)
+            # trace generation needs far more memory than the verdict alone: one harness at a time, 40 GB, twice the time
+            tests = concrete_playback(name, flags, 2 * hmeta.get("timeout", 900), 40, logdir)
             fails = [t for t in tests if t["kind"] != "cover"]
             if not fails and r["verdict"] == "unwind":
-                fails = trace_playback(name, flags, hmeta.get("timeout", 600), hmeta.get("mem_gb", 14), logdir)
+                fails = trace_playback(name, flags, 2 * hmeta.get("timeout", 900), 40, logdir)
             replayed = None
             for t in fails:
                 if match_known(known, pid, name, t["check"]):
@@ -404,7 +405,8 @@ def run_property(pid, prop, tier, seed, only=None, jobs=None, replay_only=None):
                 continue
             if replayed is None:
                 r["verdict"] = "inconclusive"
-                r["reason"] = "solver counterexample did not reproduce natively (encoding/stub artefact): %s" % descs[:2]
+                r["reason"] = ("solver counterexample did not reproduce natively (encoding/stub artefact): %s" % descs[:2]) if any("native" in t for t in fails) \
+                    else "failed check(s) %s but no counterexample could be extracted for native replay (playback run failed)" % descs[:2]
                 r["unreproduced"] = [{k: t[k] for k in ("check", "vals", "native")} for t in fails[:3] if "native" in t]
                 inconclusive.append({"harness": name, "reason": r["reason"]})
                 continue
